@@ -41,11 +41,12 @@ def err_rec(ex):
     return {"err": type(ex).__name__, "nq": 0, "nc": 0, "np": 0, "ne": 0, "ops": [], "wires": {}, "order": []}
 
 
-def trace_for(tid, n_e, n_p, n_c, prog, kind):
+def trace_for(tid, n_e, n_p, n_c, prog, kind, rng=None):
     from graphiq.circuit.circuit_dag import CircuitDAG
     circuit = cz.build_circuit(n_e, n_p, n_c, prog)
+    edit = cz.edit_circuit(circuit, rng) if rng is not None else ""
     src = rec_of(circuit)
-    t = {"tid": tid, "meta": {"n_e": n_e, "n_p": n_p, "n_c": n_c, "program": prog, "kind": kind}, "src": src,
+    t = {"tid": tid, "meta": {"n_e": n_e, "n_p": n_p, "n_c": n_c, "program": prog, "kind": kind, "edit": edit}, "src": src,
          "wide": n_e + n_p > 5}
     with warnings.catch_warnings():
         warnings.simplefilter("ignore")
@@ -92,7 +93,7 @@ def run(ctx):
         n_c = rng.choice([1, 2, 3])
         prog = cz.random_program(rng, n_e, n_p, n_c, rng.randint(1, 9), wrappers=wr, p_measure=0.3)
         tid += 1
-        traces.append(trace_for(tid, n_e, n_p, n_c, prog, "random"))
+        traces.append(trace_for(tid, n_e, n_p, n_c, prog, "random", rng if rng.random() < 0.4 else None))
     # wide circuits: 10+ registers of one type (multi-digit register names), operations biased to the high indices
     for _ in range(30 if ctx.quick else 400):
         n_e, n_p = rng.choice([(1, 13), (12, 2), (2, 11), (11, 11)])
